@@ -125,7 +125,7 @@ ASCII = {"γ": "gam", "ψ": "psi", "φ": "phi", "σ": "sig", "β": "beta", "τ":
 
 def ascii_name(cid):
     out = []
-    for ch in nfc(cid):
+    for ch in nfc(cid).replace("this->", "m_"):
         if ch.isascii() and (ch.isalnum() or ch == "_"):
             out.append(ch)
         elif ch in ASCII:
@@ -496,6 +496,8 @@ class Unit:
         self.types = {}             # ident -> type code
         self.reads = None           # list of idents read (when tracking)
         self.loops = {}
+        self.int_type = "N"         # type of integer declarations initialised by a literal (index_t i = 0)
+        self.scratch = set()        # work buffers a lambda may overwrite (their contents are never read afterwards)
         self.scope = name           # prefix of the names of lambda-lifted loop bodies (the enclosing lambda, if any)
         self.store = "st"           # name of the store cell
 
@@ -825,6 +827,7 @@ class Exec:
     def outcomes(self, stmts, env):
         """(set of exit kinds {'ret','fall'}, set of names whose binding changed at some exit)"""
         kinds, changed = set(), set()
+        fall = set()
         base = dict((n, c.val) for n, c in env.cells.items())
         save_cnt, save_reads, save_defs = self.u.cnt, self.u.reads, list(self.u.defs)
         save_types, save_loops = dict(self.u.types), dict(self.u.loops)
@@ -837,7 +840,11 @@ class Exec:
                     changed.add(n)
 
         def k(e2):
-            kinds.add("fall"); diff(e2); return "_"
+            kinds.add("fall"); diff(e2)
+            for n, c in e2.cells.items():
+                if n in base and base[n] != c.val:
+                    fall.add(n)
+            return "_"
 
         def ret(e2, v):
             kinds.add("ret"); diff(e2); return "_"
@@ -846,6 +853,7 @@ class Exec:
         finally:
             self.dry -= 1
             self.u.cnt, self.u.reads, self.u.defs, self.u.types, self.u.loops = save_cnt, save_reads, save_defs, save_types, save_loops
+        self.changed_fall = fall
         return kinds, changed
 
     def ordered(self, env, names):
@@ -869,15 +877,19 @@ class Exec:
             return ret(env, "throw")
         if tag == "decl":
             _, ty, name, toks = s
-            e = self.ex(toks, env)
-            # `auto z = v(x)` with v an identity view: alias
-            if isinstance(e, tuple) and e[0] == "ALIAS":
+            # `auto z = v(x)` with v a view lambda: z is another name of x
+            if len(toks) >= 4 and toks[0][0] == "id" and toks[0][1] in env.lams and env.lams[toks[0][1]].get("view") \
+                    and toks[1] == ("op", "(") and toks[-1] == ("op", ")"):
+                target = "".join(t[1] for t in toks[2:-1])
+                if not env.has(target):
+                    raise OutOfGrammar("%s: view of unknown %r" % (self.what, target))
                 env = env.copy()
-                env.alias[name] = e[1]
+                env.alias[name] = env.res(target)
                 return rest(env)
+            e = self.ex(toks, env)
             want = TYPES.get(ty)
-            if want == "N" and e[0] == "Z":
-                want = "Z"
+            if want in ("N", "Z"):
+                want = e[0] if e[0] in ("N", "Z") else self.u.int_type
             if want is None:
                 if e[0] == "L":
                     raise OutOfGrammar("%s: auto %s = literal" % (self.what, name))
@@ -901,7 +913,13 @@ class Exec:
             return "let '(%s, %s) := %s in\n    %s" % (a, b, e[1], rest(env))
         if tag == "lambda":
             env = env.copy()
-            env.lams[s[1]] = {"name": s[1], "caps": s[2], "params": s[3], "body": s[4], "inst": None}
+            lam = {"name": s[1], "caps": s[2], "params": s[3], "body": s[4], "inst": None}
+            # `[n](auto &v) { return v.topRows(n); }`: a view of the first n rows of a work vector of that size = the vector itself
+            b = s[4]
+            if len(b) == 1 and b[0][0] == "return" and b[0][1] and len(b[0][1]) == 6 and b[0][1][1] == ("op", ".") \
+                    and b[0][1][2] == ("id", "topRows") and b[0][1][0][0] == "id" and ("id", b[0][1][0][1]) in s[3]:
+                lam["view"] = True
+            env.lams[s[1]] = lam
             return rest(env)
         if tag == "incr":
             c = self.u.val(env, s[1])
@@ -917,7 +935,7 @@ class Exec:
         if tag in ("for_range", "for_up", "for_down", "foreach"):
             return self.loop(env, s, rest)
         if tag == "while_true":
-            return self.u.h.while_true(self, env, s[1], rest, ret)
+            return self.while_true(env, s[1])
         raise OutOfGrammar("%s: statement %s" % (self.what, tag))
 
     def if_(self, env, s, rest, ret):
@@ -1040,7 +1058,10 @@ class Exec:
         env = ex.env
         lam = env.lams[name]
         if lam.get("view"):
-            raise OutOfGrammar("%s: view lambda in this position" % self.what)
+            a = ex.args()
+            if len(a) != 1 or a[0][0] != "V":
+                raise OutOfGrammar("%s: view of a non-vector" % self.what)
+            return a[0], []
         argt = ex.arg_tokens()
         ps = split_params(lam["params"])
         if len(ps) != len(argt):
@@ -1099,7 +1120,7 @@ class Exec:
         for i in outs:
             if not ps[i][2]:
                 raise OutOfGrammar("%s: lambda %s assigns a by-value parameter" % (self.what, lam["name"]))
-        foreign = [n for n in changed if n not in [p[0] for p in ps]]
+        foreign = [n for n in changed if n not in [p[0] for p in ps] and n not in self.u.scratch]
         if foreign:
             raise OutOfGrammar("%s: lambda %s assigns captured variables %s" % (self.what, lam["name"], foreign))
         rty = [None]
@@ -1229,6 +1250,48 @@ class Exec:
         pat = ", ".join(sids)
         return "let '(%s) := fold_left (fun '(%s) %s => %s %s %s) %s %s in\n    %s" % (
             ", ".join(ids), pat, ivar, " ".join([gname] + capv), " ".join(sids), ivar, order, init, rest(env2))
+
+    def while_true(self, env, body):
+        """`while (true) { body }`: left by `return` only.  The body is a step function  result + state  (state = the variables
+        assigned on a path that reaches the end of the body); the loop is `while_fuel fuel step init : option result`."""
+        u = self.u
+        if getattr(u, "ret_raw", None) is None:
+            raise OutOfGrammar("%s: while (true) in a function without fuel" % self.what)
+        kinds, changed = self.outcomes(body, env)
+        names = self.ordered(env, set(self.changed_fall))
+        if "ret" not in kinds or not names:
+            raise OutOfGrammar("%s: while (true) without return / without state" % self.what)
+        inner = env.copy()
+        sids = []
+        for n in names:
+            ty = env.get(n).ty
+            ident = "s_%s_in" % ascii_name(n)
+            u.types[ident] = ty
+            inner.set(n, ty, ident)
+            sids.append(ident)
+
+        def tup(e2):
+            vs = [u.val(e2, n)[1] for n in names]
+            return "(inr (%s))" % ", ".join(vs)
+
+        def wret(e2, v):
+            return "(inl %s)" % u.ret_raw(e2, v)
+        save = u.reads
+        u.reads = []
+        bodyx = self.block(body, 0, inner, tup, wret)
+        reads = u.reads
+        u.reads = save
+        caps = [n for n in env.cells if env.cells[n].val in reads and n not in names]
+        u.loops["while"] = u.loops.get("while", 0) + 1
+        gname = "%s_while%s_step" % (u.scope, "" if u.loops["while"] == 1 else str(u.loops["while"]))
+        sty = "(%s)%%type" % " * ".join(GTYPE[env.get(n).ty] for n in names) if len(names) > 1 else GTYPE[env.get(names[0]).ty]
+        sig = " ".join(["(%s : %s)" % (env.get(c).val, GTYPE[env.get(c).ty]) for c in caps] +
+                       ["(%s : %s)" % (i, GTYPE[env.get(n).ty]) for i, n in zip(sids, names)])
+        u.defs.append((gname, "%s : (%s + %s)%%type" % (sig, u.ret_gtype, sty), bodyx, "body of the while (true) loop: inl = return, inr = next state"))
+        capv = [u.val(env, c)[1] for c in caps]
+        init = "(%s)" % ", ".join(u.val(env, n)[1] for n in names)
+        pat = "'(%s)" % ", ".join(sids) if len(sids) > 1 else sids[0]
+        return "while_fuel fuel (fun %s => %s) %s" % (pat, " ".join([gname] + capv + sids), init)
 
     def outcomes_loop(self, body, env, allow_ret):
         kinds, changed = self.outcomes(body, env)
